@@ -1,4 +1,4 @@
-package seq
+package fs
 
 import (
 	"bufio"
@@ -31,7 +31,7 @@ var (
 	fAll      = flag.Bool("allprops", false, "treat a violation of any property as failure")
 )
 
-const engineName = "seq"
+const engineName = "fs"
 
 func watchdog(d time.Duration, what string) func() {
 	done := make(chan struct{})
@@ -209,18 +209,6 @@ func simplifyCmd(c core.Cmd) []core.Cmd {
 		if c.Out != core.OutOK {
 			d := c
 			d.Out = core.OutOK
-			out = append(out, d)
-		}
-	case "submit":
-		if len(c.L) > 0 {
-			d := c
-			d.L = nil
-			out = append(out, d)
-		}
-	case "crash":
-		if len(c.L) > 0 {
-			d := c
-			d.L = nil
 			out = append(out, d)
 		}
 	}
